@@ -36,6 +36,10 @@ NAME_POOL = ["x", "Out", "abc", "a", "A", "H", "S", "(", ")", "Airlock Pump", "T
 def names(n=300):
     rnd = random.Random(_seed() + 11)
     out = list(NAME_POOL)
+    # names whose checksum sits on the boundaries of the signed reinterpretation (forged: crc32 is invertible)
+    from spec.crc32 import forge_ascii
+
+    out += [s for s in (forge_ascii(t) for t in (0x80000000, 0x7FFFFFFF, 0x80000001, 0xFFFFFFFF, 0, 1, 0x100000000 - 0x80000000 - 1)) if s]
     alphabet = "HAS()\"xyzAB 09_-é"
     for i in range(n):
         out.append("".join(rnd.choice(alphabet) for _ in range(1 + i % 9)))
